@@ -119,7 +119,13 @@ type Exec struct {
 	EndSnap            *Snap           // state at the last block boundary (after both end-blockers, before time advances)
 	blockHad           map[string]bool // op kinds executed successfully since the last block boundary
 	LastClaimAllFailed []string        // position keys whose claim failed in the last claim_all
-	ErrLogs            []ErrLog        // Error-level log lines (x/staking logs swallowed hook errors)
+	// Twin (C18): a sibling execution whose alliance module state went through
+	// ExportGenesis -> wipe -> InitGenesis; every later op is applied to both.
+	Twin    *Exec
+	TwinRes *Res
+	ExportA []byte   // export of the original at the fork
+	ExportB []byte   // export of the re-imported twin at the fork
+	ErrLogs []ErrLog // Error-level log lines (x/staking logs swallowed hook errors)
 
 	Oracles []Oracle
 
@@ -306,7 +312,14 @@ func (x *Exec) Apply(op Op) Res {
 	for _, o := range x.Oracles {
 		o.Before(x, &op)
 	}
+	if op.K == KExportImp {
+		return x.forkTwin(op)
+	}
 	res := x.run(&op)
+	if x.Twin != nil {
+		tr := x.Twin.applyQuiet(op)
+		x.TwinRes = &tr
+	}
 	if res.Panic != "" && (op.K == KSlash || op.K == KSlashHook || op.K == KJail || op.K == KUnjail) {
 		// a panic while the staking/slashing/evidence module slashes runs in begin-block: the chain halts
 		x.Halted = "panic during slash: " + res.Panic
@@ -669,3 +682,62 @@ func coinsStr(c sdk.Coins) string { return c.String() }
 func parseCoins(s string) (sdk.Coins, error) { return sdk.ParseCoinsNormalized(s) }
 
 var _ = strings.Contains
+
+// applyQuiet executes an op without oracles (used for the C18 twin and C19 replays).
+func (x *Exec) applyQuiet(op Op) Res {
+	if x.Halted != "" {
+		return Res{Err: "halted"}
+	}
+	x.Log = append(x.Log, op)
+	x.pre, x.post = x.post, nil
+	if x.pre == nil {
+		x.pre = TakeSnap(x.W, x.Ctx)
+	}
+	res := x.run(&op)
+	if res.Panic != "" && (op.K == KSlash || op.K == KSlashHook || op.K == KJail || op.K == KUnjail) {
+		x.Halted = "panic during slash: " + res.Panic
+	}
+	x.Ress = append(x.Ress, res)
+	x.L.record(x, &op, &res)
+	return res
+}
+
+// forkTwin (op export_import): from the current state two sibling branches are made. The
+// original continues on one; on the other every alliance key is deleted and the module is
+// re-initialised from the export.
+func (x *Exec) forkTwin(op Op) Res {
+	base := x.Ctx
+	a, _ := base.CacheContext()
+	b, _ := base.CacheContext()
+	x.Ctx = a.WithEventManager(sdk.NewEventManager()).WithLogger(&capLogger{x: x})
+	t := &Exec{W: x.W, Labels: map[string]int{}, Known: map[string]int{}, ErrOverTol: map[string]float64{}}
+	t.Ctx = b.WithEventManager(sdk.NewEventManager())
+	t.Ctx = t.Ctx.WithLogger(&capLogger{x: t})
+	t.L = x.L.clone()
+	t.LastEndTime = x.LastEndTime
+	t.Log = append([]Op{}, x.Log...)
+	t.Ress = append([]Res{}, x.Ress...)
+	res := Res{OK: true}
+	func() {
+		defer func() {
+			if r := recover(); r != nil {
+				res = Res{Panic: fmt.Sprintf("%v", r)}
+			}
+		}()
+		x.ExportA = x.W.App.AppCodec().MustMarshalJSON(x.W.App.AllianceKeeper.ExportGenesis(x.Ctx))
+		if err := ExportImport(x.W, t.Ctx); err != nil {
+			res = Res{Err: err.Error()}
+			return
+		}
+		x.ExportB = x.W.App.AppCodec().MustMarshalJSON(x.W.App.AllianceKeeper.ExportGenesis(t.Ctx))
+	}()
+	t.Ress = append(t.Ress, res)
+	x.Twin = t
+	x.TwinRes = &res
+	x.Ress = append(x.Ress, res)
+	x.L.record(x, &op, &res)
+	for _, o := range x.Oracles {
+		o.After(x, &op, &res)
+	}
+	return res
+}
